@@ -1,4 +1,5 @@
 import NeoFS.Props.C13
+import NeoFS.Lemmas.FSTreeSched
 /-!
 # C12 — a crash during a blob write never exposes partial or wrong object bytes
 
@@ -10,9 +11,6 @@ portable writer's `p#i` names, which no reader ever looks at.  Since the theorem
 they hold for every crash point of every schedule.
 -/
 namespace NeoFS.FSTree
-
-/-- the oracle "stop at system call `n`" -/
-def crashAt (n p : Nat) : Oracle := fun i => if i = n then some (.crash p) else none
 
 /-- the kernel part of the state is unchanged and the process stays stopped -/
 def Frozen (k k' : K) : Prop := k'.inodes = k.inodes ∧ k'.dir = k.dir ∧ k'.tmps = k.tmps ∧ k'.crashed = true
@@ -103,6 +101,169 @@ theorem acked_survive {P} (cfg : Cfg) (hc : cfg.Fixed) (hg : cfg.generic = false
     exact ih _ (fun e' he => hv e' (by simp [he])) (fun e' he => hp e' (by simp [he])) st.1 x e
       (fun e' he => hx e' (by simp [he]))
       (st.2.2 x e (fun a ha => fun hxa => hx ev (by simp) (by rw [ha, hxa])) h)
+
+/-! ## one process, several calls, a stop at ANY system call of the whole sequence
+
+`runApi` keeps one running system-call index over `Put` / `PutBatch` / `Delete` calls made one after the other, so the
+oracle `crashAt n` is a process kill at the `n`-th system call — also between two calls of one API call that no hook
+point of the code separates (for instance between the two calls a writer would need to replace an existing name).
+The theorems hold for EVERY oracle. -/
+
+/-- every kill point of every call sequence: what is visible after reopening is exactly one offered payload -/
+theorem api_crash_safe (cfg : Cfg) (hc : cfg.Fixed) (hg : cfg.generic = false) (o : Oracle) (ops : List Api)
+    (hv : ∀ op ∈ ops, ValidApi op) (dec : Bytes → Option Bytes) (a : Nat)
+    (hvis : «exists» (cleanUpTmp (recover (runApi cfg o {} ops))) a = true) :
+    ∃ d, ApiOffered ops a d ∧
+      get dec (cleanUpTmp (recover (runApi cfg o {} ops))) a = decompress dec d ∧
+      getStream cfg dec (cleanUpTmp (recover (runApi cfg o {} ops))) a = decompress dec d := by
+  have init : SInv (ApiOffered ops) ({} : K) := ⟨fun _ _ h => (by cases h), fun _ h => (by cases h), rfl, rfl⟩
+  have hs := api_run_inv (P := ApiOffered ops) cfg hc hg o ops {} hv (fun op hop a d ho => ⟨op, hop, ho⟩) init
+  have hs' : SInv (ApiOffered ops) (cleanUpTmp (recover (runApi cfg o {} ops))) :=
+    ⟨hs.kinv, fun _ h => (by cases h), rfl, rfl⟩
+  exact visible_is_exact cfg hc _ hs' dec a hvis
+
+/-- ACKNOWLEDGED OBJECTS SURVIVE EVERY LATER CALL, WHEREVER IT IS KILLED: what was readable stays readable with identical
+bytes through any further calls (puts of the same address included) under any oracle and through recovery, unless that
+very address is deleted -/
+theorem api_acked_survive {P} (cfg : Cfg) (hc : cfg.Fixed) (hg : cfg.generic = false) (o : Oracle) (ops : List Api) :
+    ∀ (k : K), (∀ op ∈ ops, ValidApi op) → (∀ op ∈ ops, ∀ a d, ApiOffers op a d → P a d) → SInv P k →
+    ∀ (x : Nat) (e : Bytes), (∀ op ∈ ops, op ≠ .del x) → ReadsK k.inodes k.dir x e →
+    ReadsK (cleanUpTmp (recover (runApi cfg o k ops))).inodes (cleanUpTmp (recover (runApi cfg o k ops))).dir x e := by
+  induction ops with
+  | nil => intro k _ _ _ x e _ h; exact h
+  | cons op rest ih =>
+    intro k hv hp hs x e hx h
+    have st := api_step_safe (P := P) cfg hc hg o k op (hv op (by simp)) (hp op (by simp)) hs
+    exact ih _ (fun e' he => hv e' (by simp [he])) (fun e' he => hp e' (by simp [he])) st.1 x e
+      (fun e' he => hx e' (by simp [he]))
+      (st.2 x e (fun a ha => fun hxa => hx op (by simp) (by rw [ha, hxa])) h)
+
+/-- in particular: putting an object that is already stored, interrupted at any system call, never takes it away -/
+theorem reput_keeps_object {P} (cfg : Cfg) (hc : cfg.Fixed) (hg : cfg.generic = false) (o : Oracle) (k : K) (a : Nat)
+    (d e : Bytes) (hs : SInv P k) (ha : IdOK a) (hd : ValidData d) (hp : P a d) (h : ReadsK k.inodes k.dir a e) :
+    ReadsK (cleanUpTmp (recover (put cfg o k a d).1)).inodes (cleanUpTmp (recover (put cfg o k a d).1)).dir a e :=
+  api_acked_survive (P := P) cfg hc hg o [.put a d] k (fun op hop => by simp at hop; subst hop; exact ⟨ha, hd⟩)
+    (fun op hop x y ho => by simp at hop; subst hop; obtain ⟨rfl, rfl⟩ := ho; exact hp) hs a e
+    (fun op hop => by simp at hop; subst hop; simp) h
+
+/-- every image of `crashImages` (the model side of the kill-at-every-system-call run) is safe -/
+theorem crash_images_safe (cfg : Cfg) (hc : cfg.Fixed) (hg : cfg.generic = false) (ops : List Api)
+    (hv : ∀ op ∈ ops, ValidApi op) (dec : Bytes → Option Bytes) (k' : K) (hk : k' ∈ crashImages cfg {} ops) (a : Nat)
+    (hvis : «exists» k' a = true) : ∃ d, ApiOffered ops a d ∧ get dec k' a = decompress dec d := by
+  unfold crashImages at hk
+  obtain ⟨n, _, rfl⟩ := List.mem_map.mp hk
+  obtain ⟨d, h1, h2, _⟩ := api_crash_safe cfg hc hg (crashAt n 0) ops hv dec a hvis
+  exact ⟨d, h1, h2⟩
+
+/-! ## concurrent callers of the portable writer: every interleaving of their system calls, every stop point -/
+
+/-- WHAT ANY INTERLEAVING OF ANY NUMBER OF CALLERS LEAVES, under any oracle, after any prefix of the schedule (a prefix is
+a schedule) and recovery: every visible address reads, through both readers, exactly one payload offered for it — a
+temporary file is renamed only by the caller that created it (`O_EXCL`) and only when it holds the whole payload; the
+address of a caller that returned success is visible; objects of addresses nobody writes read the same; no visible
+address disappears -/
+theorem generic_writers_safe {P} (cfg : Cfg) (hc : cfg.Fixed) (o : Oracle) (sched : List Nat) (k : K) (ws : List GW)
+    (hk : KInv P k.inodes k.dir) (hw : ∀ w ∈ ws, w.ph = .atOpen 0 ∧ IdOK w.a ∧ ValidData w.d ∧ P w.a w.d)
+    (dec : Bytes → Option Bytes) :
+    (∀ a, «exists» (cleanUpTmp (recover (gsched o k ws sched).1)) a = true →
+      ∃ d, P a d ∧ get dec (cleanUpTmp (recover (gsched o k ws sched).1)) a = decompress dec d ∧
+        getStream cfg dec (cleanUpTmp (recover (gsched o k ws sched).1)) a = decompress dec d) ∧
+    (∀ (n : Nat) (w : GW), (gsched o k ws sched).2[n]? = some w → w.ph = .done true →
+      «exists» (cleanUpTmp (recover (gsched o k ws sched).1)) w.a = true) ∧
+    (∀ x e, (∀ w ∈ ws, w.a ≠ x) → ReadsK k.inodes k.dir x e →
+      ReadsK (cleanUpTmp (recover (gsched o k ws sched).1)).inodes (cleanUpTmp (recover (gsched o k ws sched).1)).dir x e) ∧
+    (∀ x, «exists» k x = true → «exists» (cleanUpTmp (recover (gsched o k ws sched).1)) x = true) ∧
+    (∀ (m : Nat) (v : GW), (gsched o k ws sched).2[m]? = some v → ∃ v0 : GW, ws[m]? = some v0 ∧ v0.a = v.a) := by
+  obtain ⟨gi, gf, gm, gn⟩ := gsched_inv (P := P) o sched (k, ws) (ginv_init k ws hk hw)
+  refine ⟨?_, ?_, ?_, ?_, gn⟩
+  · intro a hvis
+    have hs' : SInv P (cleanUpTmp (recover (gsched o k ws sched).1)) := ⟨gi.kinv, fun _ h => (by cases h), rfl, rfl⟩
+    exact visible_is_exact cfg hc _ hs' dec a hvis
+  · intro n w hw' hph
+    exact gi.acked n w hw' hph
+  · intro x e hx hr
+    exact gf x e (fun n w h => hx w (List.mem_of_getElem? h)) hr
+  · intro x hx
+    exact gm x hx
+
+/-- TWO CALLERS PUTTING ONE ADDRESS (a client's put racing with the replicator's): whatever the interleaving and wherever
+the process stops, the address is either not there yet or reads exactly one of the two stored forms, complete; once one
+of them has returned success it is there -/
+theorem two_writers_one_address (cfg : Cfg) (hc : cfg.Fixed) (o : Oracle) (sched : List Nat) (a : Nat) (d1 d2 : Bytes)
+    (ha : IdOK a) (h1 : ValidData d1) (h2 : ValidData d2) (dec : Bytes → Option Bytes) :
+    («exists» (cleanUpTmp (recover (gsched o {} [{ a := a, d := d1 }, { a := a, d := d2 }] sched).1)) a = true →
+      get dec (cleanUpTmp (recover (gsched o {} [{ a := a, d := d1 }, { a := a, d := d2 }] sched).1)) a = decompress dec d1 ∨
+      get dec (cleanUpTmp (recover (gsched o {} [{ a := a, d := d1 }, { a := a, d := d2 }] sched).1)) a = decompress dec d2) ∧
+    (∀ (n : Nat) (w : GW), (gsched o {} [{ a := a, d := d1 }, { a := a, d := d2 }] sched).2[n]? = some w → w.ph = .done true →
+      «exists» (cleanUpTmp (recover (gsched o {} [{ a := a, d := d1 }, { a := a, d := d2 }] sched).1)) a = true) := by
+  have hw : ∀ w ∈ [({ a := a, d := d1 } : GW), { a := a, d := d2 }],
+      w.ph = .atOpen 0 ∧ IdOK w.a ∧ ValidData w.d ∧ (fun x e => x = a ∧ (e = d1 ∨ e = d2)) w.a w.d := by
+    intro w hw
+    simp at hw
+    rcases hw with rfl | rfl
+    · exact ⟨rfl, ha, h1, rfl, Or.inl rfl⟩
+    · exact ⟨rfl, ha, h2, rfl, Or.inr rfl⟩
+  obtain ⟨g1, g2, _, _, g5⟩ := generic_writers_safe (P := fun x e => x = a ∧ (e = d1 ∨ e = d2)) cfg hc o sched {}
+    [{ a := a, d := d1 }, { a := a, d := d2 }] (fun _ _ h => (by cases h)) hw dec
+  refine ⟨?_, ?_⟩
+  · intro hvis
+    obtain ⟨d, ⟨_, hd⟩, hg, _⟩ := g1 a hvis
+    rcases hd with rfl | rfl
+    · exact Or.inl hg
+    · exact Or.inr hg
+  · intro n w hw' hph
+    obtain ⟨v0, hv0, hav⟩ := g5 n w hw'
+    have hv0a : v0.a = a := by
+      have := List.mem_of_getElem? hv0
+      simp at this
+      rcases this with rfl | rfl <;> rfl
+    have := g2 n w hw' hph
+    rw [← hav, hv0a] at this
+    exact this
+
+/-- THE PORTABLE WRITER REPLACES, IT NEVER TAKES AWAY: a `Put` (of any address, also one that is stored already) under any
+oracle — so killed at any of its system calls — keeps every name pointing to a complete offered payload of its address and
+leaves every visible address visible -/
+theorem generic_put_keeps_visible {P} (cfg : Cfg) (hg : cfg.generic = true) (o : Oracle) (k : K) (a : Nat) (d : Bytes)
+    (hk : KInv P k.inodes k.dir) (ha : IdOK a) (hd : ValidData d) (hp : P a d) :
+    KInv P (put cfg o k a d).1.inodes (put cfg o k a d).1.dir ∧
+    (∀ x, (k.dir.lookup x).isSome → ((put cfg o k a d).1.dir.lookup x).isSome) ∧
+    (∀ x e, x ≠ a → ReadsK k.inodes k.dir x e → ReadsK (put cfg o k a d).1.inodes (put cfg o k a d).1.dir x e) := by
+  have hm := (put_generic_is_machine cfg hg o k a d hd.1.1).1
+  have hs := gsched_single o a d 12 k (.atOpen 0)
+  obtain ⟨gi, gf, gmono, _⟩ := gsched_inv (P := P) o (List.replicate 12 0) (k, [{ a := a, d := d }])
+    (ginv_init k _ hk (fun w hw => by simp at hw; subst hw; exact ⟨rfl, ha, hd, hp⟩))
+  simp only [gsched] at hs
+  rw [hs] at gi gf gmono
+  rw [hm]
+  refine ⟨gi.kinv, gmono, ?_⟩
+  intro x e hx hr
+  apply gf x e _ hr
+  intro n w hw
+  cases n with
+  | zero => simp at hw; subst hw; exact fun h => hx h.symm
+  | succ n => simp at hw
+
+/-- non-vacuity, the interleaving of the writer's own comment: caller 0 opens `p#0` and writes, caller 1 finds `p#0`
+taken (`EEXIST`), caller 0 closes and renames and returns success, the process stops: the object reads caller 0's bytes -/
+example :
+    let r := gsched noFault {} [{ a := 1, d := [5, 6] }, { a := 1, d := [5, 6] }] [0, 0, 1, 0, 0]
+    get (fun _ => none) (cleanUpTmp (recover r.1)) 1 = .ok [5, 6] ∧
+    r.2.map (·.ph) = [.done true, .atOpen 1] := by
+  constructor <;> rfl
+
+/-- and both callers running to their ends in any order leave the object -/
+example :
+    let r := gsched noFault {} [{ a := 1, d := [5, 6] }, { a := 1, d := [5, 6] }] ([1, 0, 0, 1, 1] ++ gfinishSched 2)
+    get (fun _ => none) (cleanUpTmp (recover r.1)) 1 = .ok [5, 6] ∧ r.2.map (·.ph) = [.done true, .done true] := by
+  constructor <;> rfl
+
+/-- non-vacuity for the call sequences: an object is put, put again and the process is killed at the second call's
+`linkat` (call 6: open, writev, linkat, close | open, writev, linkat): the object is still there -/
+example :
+    let k := cleanUpTmp (recover (runApi {} (crashAt 6 0) {} [Api.put 1 [5, 6], Api.put 1 [5, 6]]))
+    get (fun _ => none) k 1 = .ok [5, 6] := by
+  rfl
 
 /-- LEFTOVER TEMPORARY FILES NEVER SHOW UP: no reader looks at the `p#i` names, and `CleanUpTmp` changes no read -/
 theorem tmp_invisible (dec : Bytes → Option Bytes) (cfg : Cfg) (k : K) (t : List ((Nat × Nat) × Nat)) (a : Nat) :
